@@ -1,4 +1,5 @@
 import BddVerif.Model.Relation
+import BddVerif.Model.Count
 /-!
 Executable model of the normal-form code (property C10).
 
@@ -294,29 +295,7 @@ def toOptimizedDnfWith (card : Arr → Nat) (A : Arr) : Outcome (List PVal) :=
     | .err m => .err m
     | .panic m => .panic m
 
-/-! ### local model of `exact_cardinality` (bottom-up over a post-ordered array)
-
-`Model/Count.lean` (property C09) models the DFS of `exact_cardinality` as written; this table-based
-version computes the same number on every array whose links point to smaller indices and is used here so
-that this file does not depend on it. -/
-
-/-- cardinality table: entry `i` = number of valuations of the variables `≥ var(i)` accepted below node `i` -/
-def cardTable (A : Arr) : Array Nat :=
-  (List.range A.size).foldl (fun tab i =>
-    if i = 0 then tab.push 0
-    else if i = 1 then tab.push 1
-    else
-      let nd := nodeAt A i
-      let lo := tab.getD nd.low 0 * 2 ^ ((nodeAt A nd.low).var - nd.var - 1)
-      let hi := tab.getD nd.high 0 * 2 ^ ((nodeAt A nd.high).var - nd.var - 1)
-      tab.push (lo + hi)) #[]
-
-/-- `Bdd::exact_cardinality` on a post-ordered array -/
-def exactCardL (A : Arr) : Nat :=
-  if A.size = 1 then 0
-  else (cardTable A).getD (A.size - 1) 0 * 2 ^ (nodeAt A (A.size - 1)).var
-
-/-- `Bdd::to_optimized_dnf` -/
-def toOptimizedDnf (A : Arr) : Outcome (List PVal) := toOptimizedDnfWith exactCardL A
+/-- `Bdd::to_optimized_dnf` with `exact_cardinality` = `B.exactCard` of `Model/Count.lean` -/
+def toOptimizedDnf (A : Arr) : Outcome (List PVal) := toOptimizedDnfWith B.exactCard A
 
 end B.NF
